@@ -239,6 +239,7 @@ func c10Run(t *testing.T, c *choice.Stream, r *Result, opt RunOpt, forced *c10Fo
 		}
 		dl := time.Duration(c.Pick("deadline.ms", 0, 1, 50, 900, 2900, 3100, 5000)) * time.Millisecond
 		withCause := c.Bool("ctx.cause", 1, 3)
+		lateDone := c.Bool("ctx.late", 1, 2)
 
 		var ctx context.Context
 		var cancel context.CancelFunc
@@ -397,6 +398,10 @@ func c10Run(t *testing.T, c *choice.Stream, r *Result, opt RunOpt, forced *c10Fo
 			if useDeadline {
 				if withCause {
 					ctx, cancel = context.WithTimeoutCause(context.Background(), dl, errC10Cause)
+				} else if lateDone {
+					// the context's own timer is not the first to notice the deadline
+					ctx, cancel = NewLateCtx(e, dl)
+					r.Fire("deadline_seen_by_the_connection_first")
 				} else {
 					ctx, cancel = context.WithTimeout(context.Background(), dl)
 				}
@@ -462,6 +467,15 @@ func c10Run(t *testing.T, c *choice.Stream, r *Result, opt RunOpt, forced *c10Fo
 				}
 				return fired, firedAt, firedStep
 			}
+			wantErr := func() error {
+				if err := ctx.Err(); err != nil {
+					return err
+				}
+				if useDeadline {
+					return context.DeadlineExceeded // the deadline has passed, whoever noticed first
+				}
+				return nil
+			}
 			inCall = "Connect"
 			cl, err := ch.Connect(ctx, conn, cf.Options())
 			if err != nil {
@@ -472,8 +486,8 @@ func c10Run(t *testing.T, c *choice.Stream, r *Result, opt RunOpt, forced *c10Fo
 				}
 				r.NonTriv = true
 				r.Fire("cancel_during_handshake")
-				if !errors.Is(err, ctx.Err()) {
-					r.Violate("error-mismatch", "handshake-error", "Connect failed with %q which does not match the context error %v", err, ctx.Err())
+				if !errors.Is(err, wantErr()) {
+					r.Violate("error-mismatch", "handshake-error", "Connect failed with %q which does not match the context error %v", err, wantErr())
 				}
 				if !conn.IsClosed() {
 					r.Violate("not-closed", "handshake-not-closed", "Connect returned %q after cancellation but the connection is not closed", err)
@@ -516,7 +530,7 @@ func c10Run(t *testing.T, c *choice.Stream, r *Result, opt RunOpt, forced *c10Fo
 				r.Harness("Do failed without cancellation: %v (server parse error %v)", derr, srv.Parser.Err)
 				return
 			}
-			if refused && ch.IsException(derr) && !errors.Is(derr, ctx.Err()) && gateName != "callback" {
+			if refused && ch.IsException(derr) && !errors.Is(derr, wantErr()) && gateName != "callback" {
 				// the cancellation may have come after Do had settled on what it returns;
 				// only a cancellation from inside a callback provably precedes that
 				r.Probe("refused_and_cancelled_late")
@@ -524,8 +538,8 @@ func c10Run(t *testing.T, c *choice.Stream, r *Result, opt RunOpt, forced *c10Fo
 			}
 			r.NonTriv = true
 			r.Fire("cancel_" + gateName)
-			if !errors.Is(derr, ctx.Err()) {
-				r.Violate("error-mismatch", "do-error:"+gateName, "Do failed with %q which does not match the context error %v", derr, ctx.Err())
+			if !errors.Is(derr, wantErr()) {
+				r.Violate("error-mismatch", "do-error:"+gateName, "Do failed with %q which does not match the context error %v", derr, wantErr())
 				return
 			}
 			if took := e.Sim.Now() - at; took > bound {
